@@ -25,7 +25,8 @@ func (c02) Meta() fw.Meta {
 		Rule: "case = (2-4 level layout emphasising N_fine==ratio, N_fine==ratio+1 and coarser rings barely longer than the finer one; method; xff in {0,1/4,1/2,3/4,1} or random; clock; 10-30 writes: single/batch to named or best archives, lap collisions, duplicates, either sign, +-0); " +
 			"oracle: from the ACTUAL state before the op and the actual post-state of the directly written (finest) archive, recompute every coarser level: touched intervals, known finer values (stored interval must match), " +
 			"float32 known-fraction test, aggregate folded in time order, unchanged slots bit-identical, recursion only from stored slots; expected coarser rings must equal the actual ones bit for bit. A panic in an update is a violation. " +
-			"non-trivial = case stored and skipped (by xff or zero-known) at least one coarser slot; distinct by (layout, clock, ops).",
+			"non-trivial = case stored and skipped (by xff or zero-known) at least one coarser slot; distinct by (layout, clock, ops)." +
+			" Every 4th case with average/sum/last/first also writes NaN payloads, infinities and huge finite values (NaN results compare equal whatever their payload).",
 		Assumptions: []string{
 			"clock domain: maxRetention + 2*maxStep <= now and now + 2*maxStep < 2^32",
 			"xFilesFactor boundary uses the float32 quotient; ops in which the exact rational and the float32 quotient disagree about >= xff are don't-care (counted as dontcare_ops, state resynchronised)",
